@@ -1260,6 +1260,16 @@ def run_o_intdata(inp):
             xa = np.array(x)
             return H.Segment(H.Point(xa[..., 0, :]), H.Point(xa[..., 1, :]))
         return {"segment": H.Segment, "geodesic": H.Geodesic, "horosphere": H.Horosphere}[kind](x)
+    # representatives whose difference is lightlike (a = <p1 - p2, p1 - p2> = 0, which integral coordinates hit exactly) are
+    # the subject of finding C12-segment-a-zero, not of this clause: the pinned formula divides by a
+    if kind in ("segment", "polygon"):
+        for u in inp["units"][:max(cnt, 1)]:
+            rows = [[int(x) for x in r] for r in u]
+            pairs = list(zip(rows, rows[1:] + rows[:1])) if kind == "polygon" else [(rows[0], rows[1])]
+            for r0, r1 in pairs:
+                df = [x - y for x, y in zip(r0, r1)]
+                if -df[0] * df[0] + sum(x * x for x in df[1:]) == 0:
+                    return {"skip": True}
     # the float64 object is the reference; degenerate positions that integral coordinates hit exactly (a geodesic through
     # the origin of the Poincare ball, an ideal endpoint at the half-space point at infinity) are not the subject here
     try:
